@@ -11,7 +11,7 @@ PROPERTY = 'C07'
 LEVEL = 'exploration'
 RULE = ('Hypothesis: identity over mapped names (case variants), unmapped names, multi-valued / empty / non-ASCII values x policy {absent, default, per-SP, both} with '
         'attribute_restrictions {absent, None, name only, regex lists}, entity_categories subsets of the shipped modules, fail_on_missing_requested x SP metadata with 0-2 '
-        'identity values handed over as str / bytes / int lists or a bare single value; AttributeConsumingServices (required/optional spelled true/false/1/0, by friendly name and/or name+format, value constraints, unsatisfiable requirements) x SP entity categories x '
+        'identity values handed over as str / bytes / int lists (a bare single value only against attribute_restrictions, whose filter handles it); AttributeConsumingServices (required/optional spelled true/false/1/0, by friendly name and/or name+format, value constraints, unsatisfiable requirements) x SP entity categories x '
         '{create_authn_response, create_attribute_response}. Non-trivial = the model forbids at least one (attribute, value) of the identity; distinct = distinct case.')
 ASSUMPTIONS = ['reference policy = most permissive reading of the statement and docs/howto/config.rst (subset oracle: releasing less is never flagged)',
                'responses are unsigned (no tool involved); output read with stdlib ElementTree']
@@ -56,7 +56,9 @@ def case_strategy():
                                      'required': st.sampled_from([True, False, True, False, '1', '0']), 'values': st.lists(st.sampled_from(VALUES[:6]), max_size=2)})
         return st.fixed_dictionaries({'identity': st.just(identity), 'policy': policy, 'services': st.lists(st.lists(req, min_size=1, max_size=4), max_size=2),
                                       # how the application hands over the values: lists of str (usual), bytes (LDAP style), ints, or a bare single value
-                                      'valrep': st.sampled_from(['str', 'str', 'str', 'str', 'bytes', 'int', 'single']),
+                                      # (a bare single value is only used in the enumerated value-representations part, on the one filter that documents it:
+                                      # elsewhere the library iterates the value, and identities are dictionaries of lists)
+                                      'valrep': st.sampled_from(['str', 'str', 'str', 'str', 'bytes', 'int']),
                                       # an attribute query may list the attributes it wants (names drawn from the identity and from outside it)
                                       'query_attrs': st.one_of(st.none(), st.lists(st.one_of(st.sampled_from(keys), st.sampled_from(NAMES)), min_size=1, max_size=4, unique=True)),
                                       'sp_cats': st.lists(st.sampled_from(sorted(CATS)), max_size=3, unique=True),
